@@ -14,6 +14,47 @@ from tiers import TIERS, VARIANTS, COMPONENTS, ASSUMPTIONS  # noqa
 NWORKERS = int(os.environ.get('VERIF_WORKERS', '16'))
 
 
+
+PINNED = '5d16593'      # the commit the line numbers in properties.jsonl refer to (first commit of /repo)
+
+
+def anchored_functions(prop):
+    """Names of the library functions whose bodies overlap the file:line ranges of the property's 'mechanism' anchors
+    (line numbers looked up in the pinned commit; the names are then counted in the current tree's function-entry profile)."""
+    sel = set()
+    try:
+        for line in open(os.path.join(VERIF, 'properties.jsonl')):
+            pj = json.loads(line)
+            if pj['id'] != prop:
+                continue
+            for m in pj['anchors']['mechanism']:
+                for part in re.split(r';\s*', m['where']):
+                    mm = re.match(r'\s*([\w/\.]+\.[ch]):([\d,\-\s]+)', part)
+                    if not mm:
+                        continue
+                    r = subprocess.run(['git', '-C', os.environ.get('VERIF_ANCHOR_REPO', '/repo'), 'show', PINNED + ':' + mm.group(1)], capture_output=True, text=True, errors='replace')
+                    if r.returncode != 0:
+                        continue
+                    fl = []
+                    for i, l in enumerate(r.stdout.split('\n'), 1):
+                        d = re.match(r'^(?:static\s+)?(?:inline\s+)?(?:const\s+)?[A-Za-z_][\w\s\*]*?\b(\w+)\s*\([^;]*$', l)
+                        if d and l[:1] not in (' ', '\t', '#', '}', '/', '*') and d.group(1) not in ('if', 'while', 'for', 'switch', 'return'):
+                            fl.append((i, d.group(1)))
+                    for rng in mm.group(2).split(','):
+                        rng = rng.strip()
+                        if not rng:
+                            continue
+                        ab = rng.split('-')
+                        a, b = int(ab[0]), int(ab[-1])
+                        for k, (ln, fn) in enumerate(fl):
+                            nxt = fl[k + 1][0] if k + 1 < len(fl) else 10 ** 9
+                            if ln <= b and nxt > a:
+                                sel.add(fn)
+    except Exception:
+        pass
+    return sorted(sel)
+
+
 def log(*a):
     print(*a, flush=True)
 
@@ -531,16 +572,9 @@ def main():
         rc = 2
 
     # ---- evidence
-    anchors = []
-    try:
-        for line in open(os.path.join(VERIF, 'properties.jsonl')):
-            pj = json.loads(line)
-            if pj['id'] == prop:
-                for m in pj['anchors']['mechanism']:
-                    anchors += re.findall(r'\b(bidib_[a-z_0-9]+)', m['name'])
-    except Exception:
-        pass
-    reach_sel = {fn: reach.get(fn, 0) for fn in sorted(set(anchors)) if fn in reach or True}
+    anchors = anchored_functions(prop)
+    reach_sel = {fn: reach.get(fn, 0) for fn in sorted(set(anchors))}
+    never_entered = [fn for fn, n in reach_sel.items() if n == 0]
     top_reach = dict(sorted(reach.items(), key=lambda kv: -kv[1])[:25])
     warnings = []
     for pn, pv in merged['probes'].items():
@@ -568,7 +602,7 @@ def main():
             'faults_fired': dict(merged['faults_fired'], **{('file:' + k): v for k, v in merged['file_faults_fired'].items()}),
             'probes': merged['probes'],
             'api_calls': merged['api_calls'], 'downlink_messages_decoded': merged['wire_msgs'], 'uplink_frames_delivered': merged['uplink_frames'],
-            'anchored_function_calls': reach_sel, 'most_called_library_functions': top_reach,
+            'anchored_function_calls': reach_sel, 'anchored_functions_never_entered': never_entered, 'most_called_library_functions': top_reach,
             'distinct_lock_order_edges': len(edges),
             'determinism': {'same_seed_twice_hash_checks': merged['twice_checked'], 'violation_candidates_gated': total_cands},
             'regression_replays': reg_results,
